@@ -50,7 +50,7 @@ pub trait TyVisitorField {
     type Out;
     fn visit<T>(self, dims: &[usize]) -> Self::Out
     where
-        T: Ty + DualNum<<T as Ty>::F> + PartialOrd + nalgebra::RealField,
+        T: Ty + DualNum<<T as Ty>::F> + PartialOrd + nalgebra::RealField + nalgebra::SimdValue<Element = T, SimdBool = bool>,
         <T as Ty>::F: nalgebra::RealField;
 }
 
